@@ -1034,7 +1034,8 @@ class ContainsCriterion(Criterion):
 
     @builder
     def negate(self) -> "Self":  # type:ignore[return,override]
-        self._is_negated = True
+        # NOT (x NOT IN (..)) is x IN (..)
+        self._is_negated = not self._is_negated
 
 
 class RangeCriterion(Criterion):
